@@ -16,6 +16,10 @@ CONSTANTS
   Cap = 0
   Wins = {}
   OwnStorage = TRUE
+  Forms = {"ln"}
+  Shapes = {"plain"}
+  WholeMsg = TRUE
+  SignedCid = TRUE
   Sink <- KeepAll
-INVARIANTS TypeOK Unique AliasSame WholeLines OnePerCall CounterOk OperandsUntouched
+INVARIANTS TypeOK Unique AliasSame WholeLines OnePerCall Adjacent CounterOk OperandsUntouched
 CHECK_DEADLOCK FALSE
